@@ -17,7 +17,7 @@ open EIO EIO.Codec
 
 /-- a session that is not closed has a current transport, and that transport is not closed -/
 def LinkOK (w : World) (sid : Nat) : Prop :=
-  (w.sock sid).tr < w.trs.size ∧ (w.tr (w.sock sid).tr).rs ≠ .closed ∧ (w.sock sid).rs ≠ .opening
+  (w.sock sid).tr < w.trs.size ∧ (w.tr (w.sock sid).tr).rs ≠ .closed
 
 instance (w : World) (sid : Nat) : Decidable (LinkOK w sid) := by unfold LinkOK; exact inferInstance
 
@@ -79,7 +79,7 @@ theorem appClose_discard_closes (w : World) (sid : Nat) (i : Inv w) (hsz : sid <
   rw [closeTransportF]
   simp only [if_true, true_and]
   generalize hti : (w.sock sid).tr = ti
-  have hlink' : (w.tr ti).rs ≠ .closed := by rw [← hti]; exact hlink.2.1
+  have hlink' : (w.tr ti).rs ≠ .closed := by rw [← hti]; exact hlink.2
   have hin : ti < w.trs.size := by rw [← hti]; exact hlink.1
   generalize hw1 : (w.setTr ti fun t => { t with discarded := true }) = w1
   have p1 : Pres w w1 := by rw [← hw1]; exact pr_setTr _ _ (Pres.refl _)
@@ -179,7 +179,7 @@ theorem c12_discard_closes_partial (o : Opts) (ops : List Op) (sid : Nat)
     have hl : ((run o ops).sock sid).rs = .open_ ∨ ((run o ops).sock sid).rs = .closing := by
       unfold closedW at hnc
       cases h : ((run o ops).sock sid).rs with
-      | opening => exact absurd h hlink.2.2
+      | opening => exact absurd h (i.regOpen sid hreg)
       | open_ => exact Or.inl rfl
       | closing => exact Or.inr rfl
       | closed => exact absurd h hnc
